@@ -1,6 +1,8 @@
 """C04 - images and keypoints stay registered through all geometric preprocessing."""
 
 import copy
+import os
+import shutil
 import hashlib
 import math
 import random
@@ -97,7 +99,7 @@ def gen_plan(rng, index, tier):
             aug["intensity"] = {"uniform_noise_p": 1.0, "contrast_p": 1.0, "brightness": 0.2, "brightness_p": 1.0}
         cfg["aug"] = aug
         cfg["apply_aug"] = which != "both_off"
-        plan["ds"] = {"kind": kind, "cfg": cfg, "aug_kind": which}
+        plan["ds"] = {"kind": kind, "cfg": cfg, "aug_kind": which, "npz": rng.random() < 0.25, "stale_dir": rng.random() < 0.6}
         plan["ops"] = [{"op": rng.choice(["get", "get", "get", "rng_jump"]), "i": rng.randrange(8), "seed": rng.randrange(1 << 30)} for _ in range(rng.randint(2, 8))]
     return plan
 
@@ -141,6 +143,13 @@ def shrink(plan):
             if len(ops) > 1:
                 p = copy.deepcopy(plan)
                 del p["ops"][i]
+                yield p
+        for k in ("stale_dir", "npz"):
+            if plan["ds"].get(k):
+                p = copy.deepcopy(plan)
+                p["ds"][k] = False
+                if k == "npz":
+                    p["ds"]["stale_dir"] = False
                 yield p
         c = plan["ds"]["cfg"]
         for k, v in (("scale", 1.0), ("max_stride", 1)):
@@ -222,11 +231,18 @@ def _with_threads(res, tx):
 
 
 def _execute(plan, choices=None):
+    try:
+        return _execute_inner(plan, choices)
+    finally:
+        shutil.rmtree(f"/dev/shm/verif-c04-{os.getpid()}-{plan.get('seed', 0) % 100000}", ignore_errors=True)
+
+
+def _execute_inner(plan, choices=None):
     violations = []
     trace = []
     probes = {"keypoints_decoded": 0, "keypoints_skipped_in_padding": 0, "worst_err_over_tol_x1000_max": 0,
               "size_rounding_nonzero": 0, "padding_checked": 0, "crop_near_border": 0, "affine_applied": 0,
-              "intensity_identity_checked": 0, "dataset_aug_reads": 0, "crop_size_helper_called_before_dataset": 0}
+              "intensity_identity_checked": 0, "dataset_aug_reads": 0, "crop_size_helper_called_before_dataset": 0, "npz_dataset": 0, "stale_chunks_in_dir": 0}
 
     def V(kind, where, detail):
         violations.append({"kind": kind, "sig": f"{kind}:{where}", "detail": detail})
@@ -400,7 +416,22 @@ def _execute(plan, choices=None):
                 # from the SAME labels object (helpers must not have touched it)
                 find_instance_crop_size(labels, maximum_stride=max(cfg["max_stride"], 2), input_scaling=cfg["scale"])
                 probes["crop_size_helper_called_before_dataset"] = 1
-            ds = dw.build_dataset(kind, labels, cfg)
+            npz_root = None
+            if spec.get("npz"):
+                # the .npz-chunk flavour of the same dataset, in a directory an earlier run already used for another geometry
+                npz_root = f"/dev/shm/verif-c04-{os.getpid()}-{plan.get('seed', 0) % 100000}"
+                shutil.rmtree(npz_root, ignore_errors=True)
+                os.makedirs(npz_root)
+                if spec.get("stale_dir"):
+                    c0 = copy.deepcopy(cfg)
+                    c0["scale"] = 1.0 if cfg["scale"] != 1.0 else 0.5
+                    c0["apply_aug"] = False
+                    dw.build_dataset(kind, dw.build_labels(dw.stale_scene(scene)), c0, np_chunks=True, np_chunks_path=npz_root)
+                    probes["stale_chunks_in_dir"] = 1
+                ds = dw.build_dataset(kind, labels, cfg, np_chunks=True, np_chunks_path=npz_root)
+                probes["npz_dataset"] = 1
+            else:
+                ds = dw.build_dataset(kind, labels, cfg)
             ref = None
             if spec["aug_kind"] == "intensity":
                 c2 = copy.deepcopy(cfg)
